@@ -8,6 +8,7 @@ import re
 import sys
 sys.path.insert(0, os.path.dirname(os.path.abspath(__file__)))
 import cfun
+cfun.CAP_VARIABLE_SHIFTS = True
 import cstate
 import symexec
 import cfgfields
